@@ -38,6 +38,9 @@ type connScn struct {
 	HandlerK      int       `json:"handler_k,omitempty"`
 	HandlerYields int       `json:"handler_yields,omitempty"`
 	Disconnect    bool      `json:"disconnect,omitempty"`
+	// user Close inside the remaining callbacks: OnDisconnect, and a close callback
+	DisconnectClose bool `json:"disconnect_close,omitempty"`
+	CallbackClose   bool `json:"callback_close,omitempty"`
 	NCallbacks    int       `json:"ncallbacks"`
 	Peer          []peerAct `json:"peer"`
 	Closers       int       `json:"closers,omitempty"`
@@ -53,6 +56,7 @@ type connScn struct {
 func genConnScn(t *rapid.T, prop string, excl map[string]bool) connScn {
 	s := connScn{Prop: prop}
 	s.NCallbacks = rapid.IntRange(1, 3).Draw(t, "ncb")
+	s.CallbackClose = rapid.IntRange(0, 7).Draw(t, "callbackClose") == 0
 	s.Client = rapid.IntRange(0, 5).Draw(t, "client") == 0
 	if s.Client {
 		s.LateSetReq = rapid.Bool().Draw(t, "lateSetReq")
@@ -73,6 +77,9 @@ func genConnScn(t *rapid.T, prop string, excl map[string]bool) connScn {
 		}
 		s.Request = rapid.IntRange(0, 5).Draw(t, "request") > 0
 		s.Disconnect = rapid.IntRange(0, 2).Draw(t, "disconnect") > 0
+		if s.Disconnect {
+			s.DisconnectClose = rapid.IntRange(0, 5).Draw(t, "disconnectClose") == 0
+		}
 		if s.Connect && s.Request && !excl["F24"] {
 			s.ConnectSetsRequest = rapid.IntRange(0, 5).Draw(t, "connectSetsRequest") == 0
 		}
@@ -253,6 +260,9 @@ func runConn(t *rapid.T, s connScn, replay []vs.Step) *connOutcome {
 		if s.Disconnect {
 			opts.onDisconnect = func(ctx context.Context, conn Connection) {
 				w.ev("disconnect")
+				if s.DisconnectClose {
+					conn.Close()
+				}
 			}
 		}
 	}
@@ -274,6 +284,9 @@ func runConn(t *rapid.T, s connScn, replay []vs.Step) *connOutcome {
 					o.cbInHandler++
 				}
 				w.ev(fmt.Sprintf("cb%d", i))
+				if s.CallbackClose && i == 0 {
+					c.Close()
+				}
 				return nil
 			})
 		}
@@ -488,7 +501,7 @@ func judgeConn(s connScn, o *connOutcome) (sig, msg string) {
 		if o.maxHandler > 1 {
 			return "handler-overlap", fmt.Sprintf("%d OnRequest invocations in progress at once | events: %s", o.maxHandler, logs)
 		}
-		if s.Request && !panics && s.Handler != "close" && !s.ConnectClose && !s.PrepareClose && o.leftAtQuiet != 0 {
+		if s.Request && !panics && s.Handler != "close" && !s.ConnectClose && !s.PrepareClose && !(s.DisconnectClose && w.count("disconnect") > 0) && o.leftAtQuiet != 0 {
 			return "stranded-input", fmt.Sprintf("%d bytes left unread at quiescence with no invocation in progress (sent %d, consumed %d, closing=%d) | events: %s", o.leftAtQuiet, o.sent, o.consumed, o.statusQuiet, logs)
 		}
 		if s.Request && o.peerClosed {
@@ -507,7 +520,7 @@ func judgeConn(s connScn, o *connOutcome) (sig, msg string) {
 			if firstCb >= 0 && lastReq > firstCb {
 				return "handler-after-callbacks", "OnRequest ran after the close callbacks | events: " + logs
 			}
-			if s.Closers == 0 && !panics && s.Handler != "close" && !s.ConnectClose && !s.PrepareClose && !s.Client && o.consumed != o.sent {
+			if s.Closers == 0 && !panics && s.Handler != "close" && !s.ConnectClose && !s.PrepareClose && !(s.DisconnectClose && w.count("disconnect") > 0) && !s.Client && o.consumed != o.sent {
 				return "input-not-offered", fmt.Sprintf("peer sent %d bytes before closing, handler consumed %d before the close callbacks | events: %s | at quiescence: %s", o.sent, o.consumed, logs, o.quietState)
 			}
 		}
